@@ -204,7 +204,16 @@ def one_fault(rep, drv, contents, ci, seed, case_dir, src_root, dst_root, out_ro
         conflict = lambda rel: (pre_dst.get(rel) is not None and pre_src[rel]["k"] in ("d", "f") and pre_dst[rel]["k"] != pre_src[rel]["k"]
                                 and (pre_src[rel]["k"] == "d" or pre_dst[rel]["k"] == "d"))
         probe_case = all(c in ("statx", "newfstatat", "stat", "lstat") for c, _, _ in faults) and all(conflict(r) for r, _ in wrong)
-        if probe_case:
+        # the same class for the other probe: `read_link` asks whether a destination SYMLINK stands where the source has a directory (fix
+        # 862af11); when exactly that readlink fails the link is taken for the directory it points to, everything at and below it is planned
+        # as up to date (nothing is written), exit 0.  readlink is not a mutating call (outside C10's quantifier); recorded, not repaired.
+        link_dirs = {r for r, n in pre_dst.items() if n["k"] == "l" and (pre_src.get(r) or {}).get("k") == "d"}
+        probe_link = all(c in ("readlink", "readlinkat") for c, _, _ in faults) and link_dirs and \
+            all(any(r == a or r.startswith(a + "/") for a in link_dirs) for r, _ in wrong) and es.tree_fingerprint(pre_dst) == es.tree_fingerprint(post_dst)
+        if probe_link:
+            probe_case = True
+            rep.oracle_fail("C10/link-conflict-unseen-when-readlink-probe-fails", f"exit 0 under {faults}: the link probe of {sorted(link_dirs)[:2]} failed, the link was taken for a directory and nothing below it was transferred (destination unchanged)", desc)
+        elif probe_case:
             rep.oracle_fail("C10/type-conflict-unseen-when-stat-probe-fails", f"exit 0 under {faults}: the kind probe of {wrong[:3]} failed and the conflicting entry was planned as up to date", desc)
         else:
             rep.oracle_fail("C10/exit-zero-but-" + "+".join(kinds) + "-wrong", f"exit 0 under {faults} but {wrong[:3]} do not satisfy C01's postcondition", desc)
